@@ -136,7 +136,9 @@ def gen_problem(cfg, backward=False):
     P.n = n
     P.backward = backward
     parent = [-1] * n
-    if cfg.get('hierarchy', True):
+    if cfg.get('fixed_parent'):
+        parent = list(cfg['fixed_parent'])
+    elif cfg.get('hierarchy', True):
         for i in range(1, n):
             cands = [-1]
             j = i - 1
